@@ -66,6 +66,15 @@ def more_models():
         spec = catalog.hierarchy(shape, adds)
         out.append(('hier', spec))
         out.append(('hier', {'classes': spec['classes'], 'root': ('list', ('cls', 'C0'), 'Sequence')}))
+    # a scalar member next to a collection member: a block collection starts at the same character as its first item
+    ws = {'name': 'Ws', 'kind': 'userstring'}
+    for t in (('union', ['str', ('dict', 'str', 'int')]), ('union', [('dict', 'str', 'str'), 'str']), ('union', ['str', ('list', 'str')]),
+              ('union', [('cls', 'Ws'), ('dict', ('cls', 'Ws'), ('cls', 'Ws'))]), ('union', ['int', ('list', ('union', ['int', ('list', 'int')]))]),
+              ('union', ['str', ('dict', 'str', ('union', ['str', ('dict', 'str', 'str')]))])):
+        out.append(('scalar-or-collection', {'classes': catalog.BASE + [ws], 'root': t}))
+        out.append(('scalar-or-collection', {'classes': catalog.BASE + [ws, {'name': 'K', 'params': [('u', t), ('v', 'int', 3)]}],
+                                             'root': ('cls', 'K')}))
+        out.append(('scalar-or-collection', {'classes': catalog.BASE + [ws], 'root': ('list', t)}))
     # exactly one registered class (any "only one class" short-cut shows when unrelated classes are added)
     out.append(('single', {'classes': [{'name': 'K', 'params': [('x', 'int'), ('y', 'str', 'd')]}], 'root': ('cls', 'K')}))
     out.append(('single', {'classes': [{'name': 'K', 'params': [('x', 'int'), ('a_b', 'int', 0)], 'extra': True}], 'root': ('cls', 'K')}))
